@@ -39,7 +39,7 @@ for p in props:
 m = {
     'version': 1,
     'setup_cmd': 'sh ./setup.sh',
-    'hooks': {'guard': 'DTAIDISTANCE_VERIF', 'enable': 'none needed: checks read /repo sources directly (module-global substitution, fresh clang IR, ctypes); the variable is exported by ./check for completeness',
+    'hooks': {'guard': 'DTAIDISTANCE_VERIF', 'enable': 'none needed: checks read /repo sources directly (module-global substitution, fresh clang IR, ctypes); no hook was added to /repo, the guard name is reserved',
               'baseline_off_cmd': 'cd /repo && /venv/bin/python -m pytest -ra -q -p no:cacheprovider --timeout=900 --continue-on-collection-errors',
               'source_commits': [], 'add_only': True},
     'engines': [
